@@ -3,9 +3,10 @@
    Z / positive / N / nat / byte stay the extracted inductive types.  No Extract Constant. *)
 Require Extraction.
 Require Import ExtrOcamlBasic.
-From PVGen Require Import Gen GenKeep Defaults.
+From PVGen Require Import Gen GenKeep Defaults GenAsync Own.
 
 Extraction "model.ml"
   Z.add Z.mul Z.sub Z.opp Z.div Z.modulo Z.ltb Z.eqb Z.of_nat Z.to_nat Z.of_N Pos.succ
   b2z z2b
-  gen_encode gen_size gen_decode_top gen_decode_keep_top default_of resolve ttype_of_ty.
+  gen_encode gen_size gen_decode_top gen_decode_keep_top default_of resolve ttype_of_ty
+  gen_decode_async_top own_decode_top heap_val owns_heap.
